@@ -20,6 +20,7 @@
 From Coq Require Import ZArith List String Extraction ExtrOcamlBasic.
 From Coq Require Import QArith.
 From PV Require Import Lib.Py Extract.Sx Model.Ops Model.Graph Model.GraphExpr Model.Validate.
+From PV Require Import Model.Fail Model.ValidateFail.
 Import ListNotations.
 Open Scope string_scope.
 
@@ -173,9 +174,98 @@ Definition close_entry (args : list sx) : sx :=
   | _ => bad_args
   end.
 
-Definition table : list entry :=
+(* ------------------------------------------- validate_calcs with failing cells
+   wire: validate_f (fnodes failing nimp texts tol outs raise keytexts)
+     fnode    = node ++ (fault)      fault = (0) | (1 k) unknown function after k
+                                     precedents | (2) plugin function (as Extract/C09.v)
+     failing  = plugin nodes whose function raises (the others return 7)
+     nimp     = plugin nodes whose function raises NotImplementedError
+     raise    = 0 | 1   raise_exceptions
+     keytexts = one (name own eval) per node: the texts of KFunc / KOwn / KEval
+   answer: (left verified mismatch snapshot not-implemented exceptions raised)
+     bucket = ((keytext ((n chain…)…))…)     raised = () | (n chain…)           *)
+Inductive fault := NoFault | Unknown (k : nat) | Plugin.
+
+Definition dec_fault (x : sx) : option fault :=
+  match x with
+  | SL [SZ 0] => Some NoFault
+  | SL [SZ 1; SZ k] => Some (Unknown (Z.to_nat k))
+  | SL [SZ 2] => Some Plugin
+  | _ => None
+  end%Z.
+
+Definition dec_fnode (x : sx) : option (nodeinfo * fault) :=
+  match x with
+  | SL [i; r; ds; v0; st; fm; ft] =>
+      match dec_node (SL [i; r; ds; v0; st; fm]), dec_fault ft with
+      | Some ni, Some f => Some (ni, f)
+      | _, _ => None
+      end
+  | _ => None
+  end.
+
+Definition fault_of (fs : list fault) (n : nat) : fault := nth n fs NoFault.
+
+Definition mk_fpre (fs : list fault) (n : nat) : option nat :=
+  match fault_of fs n with Unknown k => Some k | _ => None end.
+
+Definition mk_fsem (ns : list nodeinfo) (fs : list fault) (failing : nat -> bool)
+           (n : nat) (vals : list pyval) : option pyval :=
+  match fault_of fs n with
+  | Plugin => if failing n then None else Some (VInt 7)
+  | _ => Some (mk_sem ns n vals)
+  end.
+
+Definition dec_keytexts (x : sx) : option (list Z * list Z * list Z) :=
+  match x with
+  | SL [a; b; c] =>
+      match dec_text a, dec_text b, dec_text c with
+      | Some a, Some b, Some c => Some (a, b, c)
+      | _, _, _ => None
+      end
+  | _ => None
+  end.
+
+Definition enc_nat (n : nat) : sx := SZ (Z.of_nat n).
+Definition enc_entry (e : ValidateFail.entry) : sx := SL (enc_nat (fst e) :: map enc_nat (snd e)).
+Definition enc_bucket (b : bucket) : sx :=
+  SL (map (fun ke => SL [SL (map SZ (fst ke)); SL (map enc_entry (snd ke))]) b).
+
+Definition validate_f_entry (args : list sx) : sx :=
+  match args with
+  | [SL nodes; SL failing; SL nimp; SL texts; tol; SL outs; SZ rz; SL kts] =>
+      match dec_list dec_fnode nodes, sx_zs failing, sx_zs nimp, dec_list dec_text texts,
+            dec_tol tol, sx_zs outs, dec_list dec_keytexts kts with
+      | Some nfs, Some fl, Some nl, Some ts, Some t, Some os, Some ks =>
+          let ns := map fst nfs in
+          let fs := map snd nfs in
+          let W := mk_wb ns in
+          let inl (l : list Z) n := existsb (fun z => Nat.eqb (Z.to_nat z) n) l in
+          let fpre := mk_fpre fs in
+          let kt n := nth n ks ([], [], []) in
+          let ktext k := match k with
+                         | KFunc r => fst (fst (kt r))
+                         | KOwn r => snd (fst (kt r))
+                         | KEval m => snd (kt m)
+                         end in
+          let vs := validate_f W (mk_fsem ns fs (inl fl)) fpre (gen_order W)
+                               (fun n => nth n ts []) t (negb (rz =? 0)%Z) (map Z.to_nat os) in
+          let bs := failed_buckets fpre (inl nl) ktext (fs_exc vs) in
+          SL [ SL (map enc_nat (fs_todo vs));
+               SL (map enc_nat (fs_verified vs));
+               SL (map (fun e => SL [enc_nat (fst e); enc_val (fst (snd e));
+                                     enc_val (snd (snd e))]) (fs_report vs));
+               snapshot W (fs_st vs);
+               enc_bucket (fst bs); enc_bucket (snd bs);
+               match fs_raised vs with Some e => enc_entry e | None => SL [] end ]
+      | _, _, _, _, _, _, _ => bad_args
+      end
+  | _ => bad_args
+  end.
+
+Definition table : list Sx.entry :=
   [ E "history" history_entry; E "spec" spec_entry; E "validate" validate_entry;
-    E "close_enough" close_entry ].
+    E "close_enough" close_entry; E "validate_f" validate_f_entry ].
 
 Definition dispatch (name : list Z) (args : list sx) : sx :=
   match lookup table name with
